@@ -24,9 +24,17 @@ type Mod struct {
 	SaltBytes []byte   // prepended to every HashBytes message
 	SaltElem  *big.Int // appended to every Hash input (nil = none)
 	Name      string
+	// ShareP: Prime() hands out the stored modulus itself instead of a copy (the Hasher interface allows it);
+	// code under test that computes in place on the returned value then corrupts the hasher, which shows.
+	ShareP bool
 }
 
-func (m Mod) Prime() *big.Int { return new(big.Int).Set(m.P) }
+func (m Mod) Prime() *big.Int {
+	if m.ShareP {
+		return m.P
+	}
+	return new(big.Int).Set(m.P)
+}
 
 func (m Mod) Hash(in []*big.Int) (*big.Int, error) {
 	inp := make([]*big.Int, 0, len(in)+1)
